@@ -602,3 +602,19 @@ func AtomicPoint(p unsafe.Pointer, what string) {
 	}
 	s.point(what, o, nil)
 }
+
+// SelfLib reports whether the running thread was spawned by instrumented (library) code.
+func SelfLib() bool {
+	if S == nil {
+		return false
+	}
+	return S.cur.lib
+}
+
+// SelfName returns the name of the running thread.
+func SelfName() string {
+	if S == nil {
+		return ""
+	}
+	return S.cur.name
+}
